@@ -87,6 +87,113 @@ OPS = {
     'link': dict(body='LinkIn', name=True, call='link', args=['cx', 'ino_of::<F>(a.oldnodeid)', INO, 'nm'], ok=ok_obj('entry_out(v)')),
 }
 
+
+CUSTOM_SPECS = r"""
+// ---- two NUL-terminated strings one after the other (symlink, rename): ServerUtil::extract_two_cstrs
+#[verifier::opaque]
+pub open spec fn two_ok(s: Seq<u8>) -> bool { has_nul(s) && first_nul(s) + 1 < s.len() && has_nul(s.subrange(first_nul(s) + 1, s.len() as int)) }
+#[verifier::opaque]
+pub open spec fn second_of(s: Seq<u8>) -> Seq<u8> { cstr_of(s.subrange(first_nul(s) + 1, s.len() as int)) }
+// lookup: the name is the whole body; before ABI 7.4 a zero inode means ENOENT
+pub open spec fn wf_lookup(hd: InHeader, rem: Seq<u8>) -> bool { let nlen = hd.len as int - 40; nlen >= 0 && rem.len() >= nlen && has_nul(rem.subrange(0, nlen)) }
+pub open spec fn want_lookup<F: FileSystem>(fs: &F, hd: InHeader, cx: Context, rem: Seq<u8>) -> bool {
+    fs.allowed_lookup(cx, ino_of::<F>(hd.nodeid), cstr_of(rem.subrange(0, hd.len as int - 40)))
+}
+pub open spec fn reply_lookup<F: FileSystem>(fs: &F, hd: InHeader, rem: Seq<u8>, minor: u32, b: Seq<u8>) -> bool {
+    if wf_lookup(hd, rem) {
+        b == (match fs.res_entry() {
+            Ok(v) => if minor < 4 && v.inode == 0 { errno_reply(hd.unique, 2) } else { ok_reply(hd.unique, entry_out(v).sbytes(), Seq::<u8>::empty()) },
+            Err(e) => err_reply(hd.unique, e) })
+    } else { is_err_reply(hd.unique, b) }
+}
+// symlink: name, then link target
+pub open spec fn wf_symlink(hd: InHeader, rem: Seq<u8>) -> bool { let nlen = hd.len as int - 40; nlen >= 0 && rem.len() >= nlen && two_ok(rem.subrange(0, nlen)) }
+pub open spec fn want_symlink<F: FileSystem>(fs: &F, hd: InHeader, cx: Context, rem: Seq<u8>) -> bool {
+    let body = rem.subrange(0, hd.len as int - 40);
+    fs.allowed_symlink(cx, second_of(body), ino_of::<F>(hd.nodeid), cstr_of(body))
+}
+pub open spec fn reply_symlink<F: FileSystem>(fs: &F, hd: InHeader, rem: Seq<u8>, b: Seq<u8>) -> bool {
+    if wf_symlink(hd, rem) {
+        b == (match fs.res_entry() { Ok(v) => ok_reply(hd.unique, entry_out(v).sbytes(), Seq::<u8>::empty()), Err(e) => err_reply(hd.unique, e) })
+    } else { is_err_reply(hd.unique, b) }
+}
+// rename / rename2: old name, new name; rename2 passes only the three defined flag bits
+pub open spec fn wf_do_rename(hd: InHeader, rem: Seq<u8>, sub: int) -> bool { let nlen = hd.len as int - 40 - sub; nlen >= 0 && rem.len() >= nlen && two_ok(rem.subrange(0, nlen)) }
+pub open spec fn want_do_rename<F: FileSystem>(fs: &F, hd: InHeader, cx: Context, rem: Seq<u8>, sub: int, newdir: u64, flags: u32) -> bool {
+    let body = rem.subrange(0, hd.len as int - 40 - sub);
+    fs.allowed_rename(cx, ino_of::<F>(hd.nodeid), cstr_of(body), ino_of::<F>(newdir), second_of(body), flags)
+}
+pub open spec fn reply_do_rename<F: FileSystem>(fs: &F, hd: InHeader, rem: Seq<u8>, sub: int, b: Seq<u8>) -> bool {
+    if wf_do_rename(hd, rem, sub) {
+        b == (match fs.res_unit() { Ok(v) => ok_reply(hd.unique, Seq::<u8>::empty(), Seq::<u8>::empty()), Err(e) => err_reply(hd.unique, e) })
+    } else { is_err_reply(hd.unique, b) }
+}
+pub open spec fn wf_rename(hd: InHeader, rem: Seq<u8>) -> bool { rem.len() >= 8 && wf_do_rename(hd, rem.skip(8), 8) }
+pub open spec fn want_rename<F: FileSystem>(fs: &F, hd: InHeader, cx: Context, rem: Seq<u8>) -> bool {
+    let a = <RenameIn as ByteValued>::sdecode(rem.subrange(0, 8)); want_do_rename(fs, hd, cx, rem.skip(8), 8, a.newdir, 0)
+}
+pub open spec fn reply_rename<F: FileSystem>(fs: &F, hd: InHeader, rem: Seq<u8>, b: Seq<u8>) -> bool {
+    if rem.len() >= 8 { reply_do_rename(fs, hd, rem.skip(8), 8, b) } else { is_err_reply(hd.unique, b) }
+}
+pub open spec fn wf_rename2(hd: InHeader, rem: Seq<u8>) -> bool { rem.len() >= 16 && wf_do_rename(hd, rem.skip(16), 16) }
+pub open spec fn want_rename2<F: FileSystem>(fs: &F, hd: InHeader, cx: Context, rem: Seq<u8>) -> bool {
+    let a = <Rename2In as ByteValued>::sdecode(rem.subrange(0, 16));
+    want_do_rename(fs, hd, cx, rem.skip(16), 16, a.newdir, a.flags & (1u32 | 2u32 | 4u32))      // RENAME_NOREPLACE | RENAME_EXCHANGE | RENAME_WHITEOUT
+}
+pub open spec fn reply_rename2<F: FileSystem>(fs: &F, hd: InHeader, rem: Seq<u8>, b: Seq<u8>) -> bool {
+    if rem.len() >= 16 { reply_do_rename(fs, hd, rem.skip(16), 16, b) } else { is_err_reply(hd.unique, b) }
+}
+// create: fuse_create_in + name; reply = fuse_entry_out followed by fuse_open_out
+pub open spec fn wf_create(hd: InHeader, rem: Seq<u8>) -> bool { let nlen = hd.len as int - 40 - 16; rem.len() >= 16 && nlen >= 0 && rem.len() >= 16 + nlen && has_nul(rem.subrange(16, 16 + nlen)) }
+pub open spec fn want_create<F: FileSystem>(fs: &F, hd: InHeader, cx: Context, rem: Seq<u8>) -> bool {
+    let a = <CreateIn as ByteValued>::sdecode(rem.subrange(0, 16));
+    fs.allowed_create(cx, ino_of::<F>(hd.nodeid), cstr_of(rem.subrange(16, 16 + (hd.len as int - 40 - 16))), a)
+}
+pub open spec fn reply_create<F: FileSystem>(fs: &F, hd: InHeader, rem: Seq<u8>, b: Seq<u8>) -> bool {
+    if wf_create(hd, rem) {
+        b == (match fs.res_create() {
+            Ok(v) => ok_reply(hd.unique, entry_out(v.0).sbytes(),
+                              (OpenOut { fh: opt_fh_u64::<F>(v.1), open_flags: v.2.bits, passthrough: (match v.3 { Some(p) => p, None => 0u32 }) }).sbytes()),
+            Err(e) => err_reply(hd.unique, e) })
+    } else { is_err_reply(hd.unique, b) }
+}
+// forget: no reply, whatever the content
+pub open spec fn wf_forget(hd: InHeader, rem: Seq<u8>) -> bool { rem.len() >= 8 }
+pub open spec fn want_forget<F: FileSystem>(fs: &F, hd: InHeader, cx: Context, rem: Seq<u8>) -> bool {
+    let a = <ForgetIn as ByteValued>::sdecode(rem.subrange(0, 8)); fs.allowed_forget(cx, ino_of::<F>(hd.nodeid), a.nlookup)
+}
+pub open spec fn reply_forget<F: FileSystem>(fs: &F, hd: InHeader, rem: Seq<u8>, b: Seq<u8>) -> bool { false }
+// notify_reply: replies only with an error
+pub open spec fn reply_notify_reply<F: FileSystem>(fs: &F, hd: InHeader, rem: Seq<u8>, b: Seq<u8>) -> bool {
+    match fs.res_unit() { Ok(v) => false, Err(e) => b == err_reply(hd.unique, e) }
+}
+pub open spec fn reply_destroy<F: FileSystem>(fs: &F, hd: InHeader, rem: Seq<u8>, b: Seq<u8>) -> bool { b == ok_reply(hd.unique, Seq::<u8>::empty(), Seq::<u8>::empty()) }
+// write: optional lock owner follows WRITE_LOCKOWNER, delayed write follows WRITE_CACHE (both in write_flags = fuse_flags)
+pub open spec fn wf_write(hd: InHeader, rem: Seq<u8>) -> bool { rem.len() >= 40 }
+pub open spec fn want_write<F: FileSystem>(fs: &F, hd: InHeader, cx: Context, rem: Seq<u8>) -> bool {
+    let a = <WriteIn as ByteValued>::sdecode(rem.subrange(0, 40));
+    fs.allowed_write(cx, ino_of::<F>(hd.nodeid), fh_of::<F>(a.fh), a.size, a.offset,
+                     (if a.fuse_flags & WRITE_LOCKOWNER != 0 { Some(a.lock_owner) } else { None::<u64> }), a.fuse_flags & WRITE_CACHE != 0, a.flags, a.fuse_flags)
+}
+pub open spec fn reply_write<F: FileSystem>(fs: &F, hd: InHeader, rem: Seq<u8>, b: Seq<u8>) -> bool {
+    if wf_write(hd, rem) {
+        b == (match fs.res_count() { Ok(v) => ok_reply(hd.unique, (WriteOut { size: v as u32, padding: 0 }).sbytes(), Seq::<u8>::empty()), Err(e) => err_reply(hd.unique, e) })
+    } else { is_err_reply(hd.unique, b) }
+}
+// read: optional lock owner follows READ_LOCKOWNER; "read replies carry exactly the bytes produced"
+pub open spec fn wf_read(hd: InHeader, rem: Seq<u8>) -> bool { rem.len() >= 40 }
+pub open spec fn want_read<F: FileSystem>(fs: &F, hd: InHeader, cx: Context, rem: Seq<u8>) -> bool {
+    let a = <ReadIn as ByteValued>::sdecode(rem.subrange(0, 40));
+    fs.allowed_read(cx, ino_of::<F>(hd.nodeid), fh_of::<F>(a.fh), a.size, a.offset,
+                    (if a.read_flags & READ_LOCKOWNER != 0 { Some(a.lock_owner) } else { None::<u64> }), a.flags)
+}
+pub open spec fn reply_read<F: FileSystem>(fs: &F, hd: InHeader, rem: Seq<u8>, b: Seq<u8>) -> bool {
+    if wf_read(hd, rem) {
+        b == (match fs.res_count() { Ok(v) => hdr_bytes(16 + fs.res_read_data().len(), 0, hd.unique) + fs.res_read_data(), Err(e) => err_reply(hd.unique, e) })
+    } else { is_err_reply(hd.unique, b) }
+}
+"""
+
 SIZES = {}
 INFO = {}
 
@@ -123,13 +230,14 @@ pub open spec fn reply_%(op)s<F: FileSystem>(fs: &F, hd: InHeader, rem: Seq<u8>,
     return txt
 
 
-def handler_contract(op, extra_req=(), noreply=False):
+def handler_contract(op, extra_req=(), noreply=False, reply_extra='', want=True):
     req = [
         'ctx.w.fresh()', 'uniq(ctx.w.id@) == ctx.in_header.unique', 'convs_ok::<F>()', 'self.fs.touch_ok()',
         'forall|u: u32, g: u32| self.fs.ids_ok(u, g)',
-        'wf_%s(ctx.in_header, ctx.r.rem@) ==> want_%s(&self.fs, ctx.in_header, ctx.context, ctx.r.rem@) // [C02.%s.args]' % (op, op, op),
-        'forall|b: Seq<u8>| #[trigger] emit_ok(ctx.w.id@, b) <==> reply_%s(&self.fs, ctx.in_header, ctx.r.rem@, b) // [C03.%s.reply]' % (op, op),
+        'forall|b: Seq<u8>| #[trigger] emit_ok(ctx.w.id@, b) <==> reply_%s(&self.fs, ctx.in_header, ctx.r.rem@, %sb) // [C03.%s.reply]' % (op, reply_extra, op),
     ]
+    if want:
+        req.insert(5, 'wf_%s(ctx.in_header, ctx.r.rem@) ==> want_%s(&self.fs, ctx.in_header, ctx.context, ctx.r.rem@) // [C02.%s.args]' % (op, op, op))
     if not noreply:
         req.insert(2, 'may_reply(ctx.w.id@)')
     return req + list(extra_req)
@@ -198,6 +306,7 @@ impl<'a, S: BitmapSlice> ZeroCopyReader for ZcReader<'a, S> { }
 '''),
     ]
     items.append(Raw('\n'.join(spec_fns(op, d) for op, d in OPS.items())))
+    items.append(Raw(CUSTOM_SPECS))
     # ---- conversions and small helpers (real text)
     items += [
         Fn(LIB, None, 'encode_io_error_kind', ensures=['r == spec_kind_errno(kind) // [C03.errno.kind]', '0 < r < 4096'], props=['C03'],
@@ -298,7 +407,44 @@ impl<'a, S: BitmapSlice> ZeroCopyReader for ZcReader<'a, S> { }
                         'proof { assert(buf@ =~= rem0.subrange(%d, %d + (hd0.len as int - 40 - %d))); }' % (sz, sz, sz)))
         spl += HANDLER_SPLICES.get(op, [])
         hs.append(Fn(SYNC, SRV, op, requires=handler_contract(op), ensures=[], splices=spl, props=['C01'], canary=True))
-    items.append(Group('impl<F: FileSystem> Server<F> {', hs))
+    E0 = ('^', 'after', 'broadcast use axiom_sbytes_len, lemma_err_reply_frame; let ghost rem0 = ctx.r.rem@; let ghost hd0 = ctx.in_header;')
+
+    def name_hint(szexpr, sz):
+        return ('ServerUtil::get_message_body(&mut ctx.r, &ctx.in_header, %s)?;' % szexpr, 'after',
+                'proof { assert(buf@ =~= rem0.subrange(%d, %d + (hd0.len as int - 40 - %d))); }' % (sz, sz, sz))
+    custom = [
+        Fn(SYNC, SRV, 'lookup', requires=handler_contract('lookup', reply_extra='self.vers.cur().minor, '), splices=[E0, name_hint('0', 0), ('^', 'after', 'proof { reveal(errno_reply); }')],
+           props=['C01'], canary=True),
+        Fn(SYNC, SRV, 'symlink', requires=handler_contract('symlink'), splices=[E0, name_hint('0', 0)], props=['C01'], canary=True),
+        Fn(SYNC, SRV, 'do_rename',
+           requires=['ctx.w.fresh()', 'uniq(ctx.w.id@) == ctx.in_header.unique', 'may_reply(ctx.w.id@)', 'convs_ok::<F>()', 'self.fs.touch_ok()',
+                     'wf_do_rename(ctx.in_header, ctx.r.rem@, msg_size as int) ==> want_do_rename(&self.fs, ctx.in_header, ctx.context, ctx.r.rem@, msg_size as int, newdir, flags) // [C02.rename.args]',
+                     'forall|b: Seq<u8>| #[trigger] emit_ok(ctx.w.id@, b) <==> reply_do_rename(&self.fs, ctx.in_header, ctx.r.rem@, msg_size as int, b) // [C03.rename.reply]'],
+           splices=[E0, ('ServerUtil::get_message_body(&mut ctx.r, &ctx.in_header, msg_size)?;', 'after',
+                         'proof { assert(buf@ =~= rem0.subrange(0, hd0.len as int - 40 - msg_size as int)); }')],
+           props=['C01'], canary=True),
+        Fn(SYNC, SRV, 'rename', requires=handler_contract('rename'), splices=[E0], props=['C01'], canary=True),
+        Fn(SYNC, SRV, 'rename2', requires=handler_contract('rename2'), splices=[E0, ('^', 'after', 'proof { assert(forall|x: u32| x & (2u32 | 1u32 | 4u32) == x & (1u32 | 2u32 | 4u32)) by (bit_vector); }')], props=['C01'], canary=True),
+        Fn(SYNC, SRV, 'create', requires=handler_contract('create'), splices=[E0, name_hint('size_of::<CreateIn>()', 16), HCLOSURE], props=['C01'], canary=True),
+        Fn(SYNC, SRV, 'forget', requires=handler_contract('forget', noreply=True), splices=[E0], props=['C01'], canary=True),
+        Fn(SYNC, SRV, 'interrupt', props=['C01']),
+        Fn(SYNC, SRV, 'destroy', requires=['ctx.w.fresh()', 'uniq(ctx.w.id@) == ctx.in_header.unique', 'may_reply(ctx.w.id@)', 'self.fs.touch_ok()', 'self.fs.allowed_destroy() // [C02.destroy.args]',
+                                            'forall|b: Seq<u8>| #[trigger] emit_ok(ctx.w.id@, b) <==> reply_destroy(&self.fs, ctx.in_header, ctx.r.rem@, b) // [C03.destroy.reply]'],
+           splices=[E0], props=['C01']),
+        Fn(SYNC, SRV, 'notify_reply', requires=['ctx.w.fresh()', 'uniq(ctx.w.id@) == ctx.in_header.unique', 'may_reply(ctx.w.id@)', 'self.fs.touch_ok()', 'self.fs.allowed_notify_reply() // [C02.notify_reply.args]',
+                                                 'forall|b: Seq<u8>| #[trigger] emit_ok(ctx.w.id@, b) <==> reply_notify_reply(&self.fs, ctx.in_header, ctx.r.rem@, b) // [C03.notify_reply.reply]'],
+           splices=[E0], props=['C01'], canary=True),
+        Fn(SYNC, SRV, 'write', requires=handler_contract('write'), splices=[E0], props=['C01'], canary=True),
+        Fn(SYNC, SRV, 'read', requires=handler_contract('read'),
+           splices=[E0, ('let out = OutHeader {', 'before',
+                         'proof { assert(data_writer.0.buf@ =~= self.fs.res_read_data()); assert(count == self.fs.res_read_data().len()); assert(count <= MAX_REPLY_CAP); }'),
+                    ('ctx.w\n                    .commit(Some(&data_writer.0))', 'before',
+                     'proof { lemma_read_reply_frame(ctx.in_header.unique, self.fs.res_read_data()); assert(commit_bytes(&ctx.w, Some(&data_writer.0)) =~= hdr_bytes(16 + self.fs.res_read_data().len(), 0, ctx.in_header.unique) + self.fs.res_read_data()); }')],
+           props=['C01'], canary=True),
+    ]
+    if only:
+        custom = [c for c in custom if c.name in only.split(',')]
+    items.append(Group('impl<F: FileSystem> Server<F> {', hs + custom))
     return Unit('server', items, preludes=['base.rs', 'stdmodel.rs', 'transport.rs', 'server.rs'],
                 generic_tags={'cap': ['C02'], 'touch': ['C02'], 'ids': ['C02'], 'emit': ['C03'], 'frame': ['C01'], 'noreply': ['C01'],
                               'once': ['C01'], 'assert': ['C01']},
@@ -323,6 +469,16 @@ pub proof fn lemma_ok_reply_frame(u: u64, d2: Seq<u8>, d3: Seq<u8>)
     let m = ok_reply(u, d2, d3);
     assert(h.sbytes().len() == 16);
     assert(m.subrange(0, 16) =~= h.sbytes());
+}
+pub proof fn lemma_read_reply_frame(u: u64, data: Seq<u8>)
+    requires 16 + data.len() <= 0xffff_ffff
+    ensures frame_ok(u, hdr_bytes(16 + data.len(), 0, u) + data), (hdr_bytes(16 + data.len(), 0, u) + data).len() == 16 + data.len(),   // [C01.frame.read_reply]
+{
+    broadcast use axiom_sbytes_len, axiom_decode_encode;
+    reveal(frame_ok);
+    let h = OutHeader { len: (16 + data.len()) as u32, error: 0, unique: u };
+    assert(h.sbytes().len() == 16);
+    assert((h.sbytes() + data).subrange(0, 16) =~= h.sbytes());
 }
 pub broadcast proof fn lemma_ios_concat(s: Seq<IoSlice<'_>>)
     ensures s.len() == 2 ==> #[trigger] ios_concat(s) =~= s[0].b@ + s[1].b@,
